@@ -24,7 +24,9 @@ Val(j) == [ver |-> j.ver, ph |-> j.phase, fins |-> ToSet(j.fins), val |-> j.val,
 (* skip / keep: "skipmode" - from that line on the transform function asks to skip every reconcile (SkipReconcileTag): an output  *)
 (* that exists stays as it is (keep = the ids whose output existed for a running input at that moment and whose input has stayed *)
 (* running since), no new output has to appear; clean-up of torn-down inputs goes on as always                                   *)
-F0 == [fin |-> FALSE, ignoreTd |-> FALSE, ignoreUntil |-> FALSE, cleanup |-> FALSE, ctrl |-> "", skip |-> FALSE, keep |-> {}]
+(* destroyer: destroy.Controller for the input type runs as well: when the system is quiet no input is left that it is meant to *)
+(* remove (unowned, tearing down, without finalizers)                                                                            *)
+F0 == [fin |-> FALSE, ignoreTd |-> FALSE, ignoreUntil |-> FALSE, cleanup |-> FALSE, ctrl |-> "", skip |-> FALSE, keep |-> {}, destroyer |-> FALSE]
 (* cleanup configuration: the dependents of input id are the outputs id and id + 10 *)
 Dependents(os, id) == {o \in DOMAIN os : o % 10 = id}
 Init == ins = Empty /\ outs = Empty /\ flags = F0 /\ l = 1 /\ tid = "" /\ bad = FALSE /\ exposed = {}
@@ -80,7 +82,8 @@ UnconvergedTransform ==
                  ELSE (oe /\ ((outs[id].ph = "running" /\ outs[id].val = 10 * ins[id].val) \/ Held(outs[id])))
            /\ (~ie) => (~oe \/ Held(outs[id]))
            /\ (ie /\ ~TreatedRunning(ins[id])) => ((~oe \/ Held(outs[id])) /\ (~oe => flags.ctrl \notin ins[id].fins)) )}
-Unconverged == IF flags.cleanup THEN UnconvergedCleanup ELSE UnconvergedTransform
+Destroyable == {id \in DOMAIN ins : ins[id].ph = "tearingDown" /\ ins[id].fins = {} /\ ins[id].owner = ""}
+Unconverged == (IF flags.cleanup THEN UnconvergedCleanup ELSE UnconvergedTransform) \cup (IF flags.destroyer THEN Destroyable ELSE {})
 Quiet(e) ==
   IF Snap(e.ins) # ins \/ Snap(e.outs) # outs THEN Reject("write-log-incomplete", [ins |-> ins, outs |-> outs], [ins |-> Snap(e.ins), outs |-> Snap(e.outs)])
   ELSE IF Judge = "C06" /\ Unconverged # {}
@@ -93,7 +96,7 @@ Next == /\ l <= Len(TraceLog) /\ l' = l + 1
         /\ LET e == TraceLog[l] IN
              IF e.ev = "reset" THEN /\ ins' = Empty /\ outs' = Empty /\ tid' = e.tid /\ bad' = FALSE /\ exposed' = {}
                                     /\ flags' = [fin |-> e.fin, ignoreTd |-> e.ignoreTd, ignoreUntil |-> e.ignoreUntil, cleanup |-> e.cleanup, ctrl |-> e.ctrl,
-                                                  skip |-> FALSE, keep |-> {}]
+                                                  skip |-> FALSE, keep |-> {}, destroyer |-> ("destroyer" \in DOMAIN e /\ e.destroyer)]
              ELSE IF bad THEN UNCHANGED <<ins, outs, flags, tid, bad, exposed>>
              ELSE CASE e.ev = "w" -> Write(e)
                     [] e.ev = "quiet" -> Quiet(e)
